@@ -216,48 +216,47 @@ theorem C16.range_grid_min (a : Axis F) (nNew : Nat) (off : Option Int) (bl' br'
   cases bl' <;> simp only [resizeAxis, Bool.false_eq_true, ↓reduceIte] <;> ring
 
 
-/-- **Grid alignment of the copied block** (`_partial`: see `C16.range_grid_shrink_offset_fails`).
-Extension with `offset = o ≥ 0` (or `None`): grid point number `num_l = offset` of the range is
-the first grid point of the domain — the block `[offset, offset + n)` written by `resize_array`
-sits on the domain's own grid points.  Restriction with `offset = None`: the range starts at
-grid point `-num_l = offset` of the domain.
-FULL STATEMENT (fails in the code): the same for a restriction with an explicit `offset = o > 0`,
-i.e. `range.gridMin = domain.gridMin + o * cell`. -/
-theorem C16.range_grid_aligned_partial (a : Axis F) (nNew : Nat) (off : Option Int)
-    (bl' br' : Bool) (hn : 2 ≤ a.n) (hN : 2 ≤ nNew)
-    (hoff : (a.n ≤ nNew ∧ ∀ o, off = some o → 0 ≤ o) ∨ (nNew < a.n ∧ off = none)) :
+/-- **Grid alignment of the copied block.**  For every offset the operator accepts
+(`None`, or a count `o ≥ 0` of cells added resp. removed on the left), extension and
+restriction alike: the block `resize_array` copies sits on the domain's own grid points.
+Extension: grid point number `num_l` (= the array offset) of the range is the first grid
+point of the domain.  Restriction: the range starts at grid point `-num_l` (= the array
+offset) of the domain; with an explicit offset `o` that is `domain.gridMin + o * cell`. -/
+theorem C16.range_grid_aligned (a : Axis F) (nNew : Nat) (off : Option Int)
+    (bl' br' : Bool) (hn : 2 ≤ a.n) (hN : 2 ≤ nNew) (hoff : ∀ o, off = some o → 0 ≤ o) :
     let numL := (numLR a.n nNew off).1
-    (a.n ≤ nNew → 0 ≤ numL ∧
+    (a.n ≤ nNew → 0 ≤ numL ∧ (∀ o, off = some o → a.n < nNew → numL = o) ∧
       (resizeAxis a nNew off bl' br').gridMin + ((numL : Int) : F) * a.cell = a.gridMin) ∧
-    (nNew < a.n → numL ≤ 0 ∧
+    (nNew < a.n → numL ≤ 0 ∧ (∀ o, off = some o → -numL = o) ∧
       (resizeAxis a nNew off bl' br').gridMin = a.gridMin + (((-numL : Int)) : F) * a.cell) := by
   intro numL
   have hg := C16.range_grid_min a nNew off bl' br' hn hN
-  refine ⟨fun h => ⟨?_, ?_⟩, fun h => ⟨?_, ?_⟩⟩
-  · rcases hoff with ⟨_, ho⟩ | ⟨h', _⟩
-    · simp only [numL, numLR]
-      split_ifs
-      · simp
-      · cases off with
-        | none => simp only; omega
-        | some o => exact ho o rfl
-    · omega
+  refine ⟨fun h => ⟨?_, ?_, ?_⟩, fun h => ⟨?_, ?_, ?_⟩⟩
+  · cases off with
+    | none => simp only [numL, numLR]; split_ifs <;> (try simp only) <;> omega
+    | some o =>
+      have := hoff o rfl
+      simp only [numL, numLR]; split_ifs <;> (try simp only) <;> omega
+  · intro o ho hlt
+    subst ho
+    simp only [numL, numLR]
+    split_ifs <;> first | omega | rfl
   · rw [hg]; ring
-  · rcases hoff with ⟨h', _⟩ | ⟨_, ho⟩
-    · omega
-    · subst ho
-      simp only [numL, numLR]
-      split_ifs <;> omega
+  · cases off with
+    | none => simp only [numL, numLR]; split_ifs <;> (try simp only) <;> omega
+    | some o =>
+      have := hoff o rfl
+      simp only [numL, numLR]; split_ifs <;> (try simp only) <;> omega
+  · intro o ho
+    subst ho
+    simp only [numL, numLR]
+    split_ifs <;> omega
   · rw [hg]; push_cast; ring
 
-/-- **Defect (finding C16-F1), proved on the model of the code as it is.**  A restriction
-with an explicit positive offset places the range to the LEFT of the domain:
-`uniform_discr(0, 1, 4)` resized to 2 cells with `offset = 1` gets its first grid point at
-`-1/8`, whereas the block the operator copies (cells 1, 2) starts at grid point `3/8`. -/
-theorem C16.range_grid_shrink_offset_fails :
-    let a : Axis Rat := ⟨0, 1, 4, false, false⟩
-    (resizeAxis a 2 (some 1) false false).gridMin = -1 / 8 ∧
-      a.gridMin + 1 * a.cell = 3 / 8 := by
+/-- The example of the repaired defect (C16-F1): `uniform_discr(0, 1, 4)` restricted to 2 cells
+with `offset = 1` now starts at grid point `3/8`, where the copied cells 1, 2 lie. -/
+example : let a : Axis Rat := ⟨0, 1, 4, false, false⟩
+    (resizeAxis a 2 (some 1) false false).gridMin = 3 / 8 ∧ a.gridMin + 1 * a.cell = 3 / 8 := by
   norm_num [resizeAxis, Axis.gridMin, Axis.gridMax, Axis.cell, numLR]
 
 end operator
@@ -274,17 +273,17 @@ theorem C16.range_covers_domain (a : Axis F) (nNew : Nat) (off : Option Int)
     (resizeAxis a nNew off false false).lo ≤ a.lo ∧ a.hi ≤ (resizeAxis a nNew off false false).hi := by
   have hc := cell_pos a hn hpos
   have hL : (0 : Int) ≤ (numLR a.n nNew off).1 := by
-    simp only [numLR]; split_ifs
-    · simp
-    · cases off with
-      | none => simp only; omega
-      | some o => exact (hoff o rfl).1
+    cases off with
+    | none => simp only [numLR]; split_ifs <;> (try simp only) <;> omega
+    | some o =>
+      have := hoff o rfl
+      simp only [numLR]; split_ifs <;> (try simp only) <;> omega
   have hR : (0 : Int) ≤ (numLR a.n nNew off).2 := by
-    simp only [numLR]; split_ifs
-    · simp
-    · cases off with
-      | none => simp only; omega
-      | some o => have := (hoff o rfl).2; simp only; omega
+    cases off with
+    | none => simp only [numLR]; split_ifs <;> (try simp only) <;> omega
+    | some o =>
+      have := hoff o rfl
+      simp only [numLR]; split_ifs <;> (try simp only) <;> omega
   have hL' : (0 : F) ≤ (((numLR a.n nNew off).1 : Int) : F) := by exact_mod_cast hL
   have hR' : (0 : F) ≤ (((numLR a.n nNew off).2 : Int) : F) := by exact_mod_cast hR
   have m1 := mul_nonneg hL' hc.le
